@@ -67,7 +67,11 @@ func (w *Worker) Mine(ctx context.Context, data []byte, targetScore float64) (ui
 	}()
 
 	// compute the minimum numbers of trailing zeros required to get a PoW score ≥ targetScore
-	targetZeros := uint(math.Ceil(math.Log(float64(len(data)+nonceBytes)*targetScore) / ln3))
+	// a score below 1/len(msg) is met by any nonce; the conversion of a negative float to uint is not defined
+	var targetZeros uint
+	if z := math.Ceil(math.Log(float64(len(data)+nonceBytes)*targetScore) / ln3); z > 0 {
+		targetZeros = uint(z)
+	}
 
 	workerWidth := math.MaxUint64 / uint64(w.numWorkers)
 	for i := 0; i < w.numWorkers; i++ {
